@@ -2,8 +2,8 @@
 # pixels read back unchanged (BitsAllocated must be a value pydicom can decode).
 import sys, warnings, io
 warnings.filterwarnings('ignore')
-sys.path.insert(0, sys.argv[1] + '/src'); sys.path.insert(0, '/verif/harness')
-import stub_modules as stubmods; stubmods.install()
+sys.path.insert(0, sys.argv[1] + '/src'); sys.path.insert(0, '/root/scratch/probe')
+import stubmods; stubmods.install()
 import numpy as np, pydicom, highdicom as hd
 from highdicom.sc import SCImage
 
